@@ -32,6 +32,26 @@ func (g *dynCompiler) fail(msg string) string {
 	return "any(false)"
 }
 
+// nameable: can the type expression be written in a test file of the function's package?
+func (g *dynCompiler) nameable(x ast.Expr) bool {
+	switch v := x.(type) {
+	case *ast.StarExpr:
+		return g.nameable(v.X)
+	case *ast.ParenExpr:
+		return g.nameable(v.X)
+	case *ast.Ident:
+		return true
+	case *ast.SelectorExpr:
+		if id, ok := v.X.(*ast.Ident); ok {
+			if g.pkg != nil && id.Name == g.pkg.Name() {
+				return true
+			}
+			return ast.IsExported(v.Sel.Name)
+		}
+	}
+	return false
+}
+
 func (g *dynCompiler) isLet(name string) bool {
 	for _, l := range g.lets {
 		if l.Name == name {
@@ -104,7 +124,7 @@ func (g *dynCompiler) static(x ast.Expr) (string, bool) {
 		if id, ok := v.Fun.(*ast.Ident); ok {
 			switch id.Name {
 			case "dyn":
-				if s, ok := g.static(v.Args[0]); ok {
+				if s, ok := g.static(v.Args[0]); ok && g.nameable(v.Args[1]) {
 					return "(" + s + ").(" + types.ExprString(v.Args[1]) + ")", true
 				}
 			case "len", "cap":
@@ -177,8 +197,14 @@ func (g *dynCompiler) expr(x ast.Expr) string {
 		return "verifBin(\"" + v.Op.String() + "\", " + g.expr(v.X) + ", " + g.expr(v.Y) + ")"
 	case *ast.CallExpr:
 		return g.call(v)
-	case *ast.SelectorExpr, *ast.IndexExpr, *ast.StarExpr, *ast.SliceExpr:
-		return g.fail("selection on a computed value")
+	case *ast.SelectorExpr:
+		return "verifGet(" + g.expr(v.X) + ", \"" + v.Sel.Name + "\")"
+	case *ast.IndexExpr:
+		return "verifIndex(" + g.expr(v.X) + ", " + g.expr(v.Index) + ")"
+	case *ast.StarExpr:
+		return "verifDeref(" + g.expr(v.X) + ")"
+	case *ast.SliceExpr:
+		return g.fail("slicing of a computed value")
 	}
 	return g.fail(fmt.Sprintf("unsupported expression %T", x))
 }
@@ -211,7 +237,9 @@ func (g *dynCompiler) call(v *ast.CallExpr) string {
 			}
 			return r
 		case "len", "cap":
-			return g.fail(id.Name + " of a computed value")
+			return "verifLenCap(\"" + id.Name + "\", " + arg(0) + ")"
+		case "dyn":
+			return arg(0) // the dynamic value itself: fields are read through reflection
 		case "iserr":
 			if s, ok := g.static(v.Args[0]); ok {
 				return "any(verifIsErr(" + s + ", uint64(verifInt(" + arg(1) + "))))"
@@ -323,7 +351,7 @@ func verifNum(x any) (*big.Int, bool) {
 	case *big.Int:
 		return v, true
 	}
-	rv := reflect.ValueOf(x)
+	rv := verifRV(x)
 	switch rv.Kind() {
 	case reflect.Int, reflect.Int8, reflect.Int16, reflect.Int32, reflect.Int64:
 		return big.NewInt(rv.Int()), true
@@ -342,7 +370,7 @@ func verifIteD(c any, a, b func() any) any { if verifBool(c) { return a() }; ret
 func verifIsNil(x any) bool {
 	if x == nil { return true }
 	if _, ok := x.(verifNil); ok { return true }
-	rv := reflect.ValueOf(x)
+	rv := verifRV(x)
 	switch rv.Kind() {
 	case reflect.Ptr, reflect.Slice, reflect.Map, reflect.Func, reflect.Interface, reflect.Chan:
 		return rv.IsNil()
@@ -417,5 +445,46 @@ func verifTypeIs[T any](x any) bool { _, ok := x.(T); return ok }
 func verifIsErr(e error, code uint64) bool {
 	if e == nil { return false }
 	return verifErrCode(e) == code
+}
+func verifHolds(f func() any) (ok bool) {
+	defer func() { if recover() != nil { ok = false } }()
+	return verifBool(f())
+}
+func verifRV(x any) reflect.Value {
+	if rv, ok := x.(reflect.Value); ok { return rv }
+	return reflect.ValueOf(x)
+}
+func verifUnwrap(x any) reflect.Value {
+	rv := verifRV(x)
+	for rv.IsValid() && (rv.Kind() == reflect.Ptr || rv.Kind() == reflect.Interface) {
+		if rv.IsNil() { panic("verif: nil dereference while evaluating the clause") }
+		rv = rv.Elem()
+	}
+	return rv
+}
+func verifOut(rv reflect.Value) any {
+	if rv.CanInterface() { return rv.Interface() }
+	if rv.CanAddr() { return reflect.NewAt(rv.Type(), unsafe.Pointer(rv.UnsafeAddr())).Elem().Interface() }
+	switch rv.Kind() {
+	case reflect.Bool: return rv.Bool()
+	case reflect.Int, reflect.Int8, reflect.Int16, reflect.Int32, reflect.Int64: return big.NewInt(rv.Int())
+	case reflect.Uint, reflect.Uint8, reflect.Uint16, reflect.Uint32, reflect.Uint64, reflect.Uintptr: return new(big.Int).SetUint64(rv.Uint())
+	case reflect.String: return rv.String()
+	}
+	return rv // kept as a reflect.Value for further selection
+}
+func verifGet(x any, name string) any {
+	rv := verifUnwrap(x)
+	if rv.Kind() != reflect.Struct { panic(fmt.Sprintf("verif: field %s of %s", name, rv.Kind())) }
+	f := rv.FieldByName(name)
+	if !f.IsValid() { panic("verif: no field " + name) }
+	return verifOut(f)
+}
+func verifIndex(x any, i any) any { return verifOut(verifUnwrap(x).Index(verifInt(i))) }
+func verifDeref(x any) any { return verifOut(verifRV(x).Elem()) }
+func verifLenCap(op string, x any) any {
+	rv := verifRV(x)
+	if op == "cap" { return big.NewInt(int64(rv.Cap())) }
+	return big.NewInt(int64(rv.Len()))
 }
 `
